@@ -64,7 +64,11 @@ Final(c) == UNION {ApplyOp(st, c.s, c.ops[2]) : st \in ApplyOp(St(0, c.n - 1, 0.
 \* hold such a value: "keeping every original sample" means a NaN original is still NaN afterwards; fills are finite.
 NaNCode == -999901
 SpecialCode(k) == -999900 - k
-Datum(c, j) == IF "sv" \in DOMAIN c THEN (IF c.sv[j + 1] = 0 THEN j + 1 ELSE SpecialCode(c.sv[j + 1])) ELSE j + 1     \* original sample j
+\* c.dd = dtype of the SAMPLES (f8 f4 i2 i4 u1 b1), c.ad = dtype of the AXIS (f8 f4 i8); absent = f8.  Neither changes what is
+\* demanded.  Sample j holds j + 1; a boolean array cannot, it holds TRUE (1) everywhere (the fill, 0, is FALSE).
+DD(c) == IF "dd" \in DOMAIN c THEN c.dd ELSE "f8"
+Val(c, j) == IF DD(c) = "b1" THEN 1 ELSE j + 1
+Datum(c, j) == IF "sv" \in DOMAIN c THEN (IF c.sv[j + 1] = 0 THEN Val(c, j) ELSE SpecialCode(c.sv[j + 1])) ELSE Val(c, j)     \* original sample j
 \* Width calls may operate on one dimension of a 2-D array (c.od = size of the other dimension, 0: the array is 1-D; c.ax = 1, 2:
 \* the operated dimension comes first / second).  out.rows[k] is the data along the operated dimension at index k-1 of the
 \* other one, where sample i holds i + 1 + 100*(k-1); every such row is judged (1-D: the single row out.data).
@@ -73,17 +77,17 @@ Rows(r) == IF "rows" \in DOMAIN r THEN r.rows ELSE <<r.data>>
 Clauses17 == {"Returns", "CoordsKept",
               "CropExactly",
               "ExtendLatticePoints", "ExtendOldKept", "ExtendNewFill", "ExtendOpenEndExcluded",
-              "ExactlyWidth", "BlockPlacement"}
+              "ExactlyWidth", "BlockPlacement",
+              "Drift/CentreSplit"}                       \* not a demand: reported as MODEL-DRIFT (the code left the Impl transcription)
 
 \* every sample that carries an original datum still has that datum's original coordinate (the same double)
 CoordsKept(c, r) == /\ Len(r.cout) = Len(r.data) /\ Len(r.lout) = Len(r.data) /\ Len(r.cin) = c.n
-                    /\ \A t \in 1..Len(r.data) : r.data[t] \in 1..c.n => BEq(r.cout[t], r.cin[r.data[t]])
+                    /\ DD(c) # "b1" => \A t \in 1..Len(r.data) : r.data[t] \in 1..c.n => BEq(r.cout[t], r.cin[r.data[t]])
 
 HoldsCrop(cl, c, r) ==
     LET S == CropIdx(c.n, c.ms, c.me, c.lc, c.rc)  L == Len(r.data) IN
-    CASE cl = "CropExactly" -> /\ L = Cardinality(S)
-                               /\ \A t \in 1..L : (r.data[t] - 1) \in S
-                               /\ \A t \in 1..(L - 1) : r.data[t] < r.data[t + 1]
+    CASE cl = "CropExactly" -> /\ L = Cardinality(S)                                   \* S is an interval of indices (LawCropContiguous)
+                               /\ \A t \in 1..L : r.data[t] = Val(c, SetMin(S) + t - 1)
       [] OTHER -> TRUE
 
 \* candidate extents that explain the observed number of samples
@@ -114,8 +118,15 @@ HoldsWidth(cl, c, r) ==
             Len(R) >= 1 /\ \A k \in 1..Len(R) :
             LET row == R[k]  L == Len(R[k])  base == 100 * (k - 1) IN
             IF c.w >= c.n
-            THEN L >= c.n /\ \E off \in Offs(c.pos, L - c.n) : \A j \in 0..(c.n - 1) : row[off + j + 1] = j + 1 + base
-            ELSE L <= c.n /\ \E off \in Offs(c.pos, c.n - L) : \A t \in 1..L : row[t] = off + t + base
+            THEN L >= c.n /\ \E off \in Offs(c.pos, L - c.n) : \A j \in 0..(c.n - 1) : row[off + j + 1] = Val(c, j) + base
+            ELSE L <= c.n /\ \E off \in Offs(c.pos, c.n - L) : \A t \in 1..L : row[t] = Val(c, off + t - 1) + base
+      \* The statement says "centre": Offs accepts the odd sample on either side.  The implementation puts it behind when
+      \* extending (front = extra // 2) and crops from n // 2 - w // 2; a result that is centred but splits otherwise is drift.
+      [] cl = "Drift/CentreSplit" ->
+            (c.pos = "center" /\ DD(c) # "b1" /\ Len(R) >= 1 /\ Len(R[1]) >= 1) =>
+               LET row == R[1]  L == Len(R[1]) IN
+               IF c.w >= c.n THEN (L >= c.n /\ (L - c.n) \div 2 + 1 <= L) => row[(L - c.n) \div 2 + 1] = 1
+               ELSE L <= c.n => row[1] = Max(0, c.n \div 2 - L \div 2) + 1
       [] OTHER -> TRUE
 
 \* chains: the final result is judged by the same clauses against the original lattice
@@ -126,7 +137,7 @@ HoldsChain(cl, c, r) ==
               /\ F # {} /\ Len(r.lout) = L
               /\ \E st \in F : \A t \in 1..L : OnLattice(r.lout[t], c.a4, c.s, st.lo + t - 1)
       [] cl = "ExtendOldKept" ->
-              F = {} \/ \E st \in F : \A j \in st.K : r.data[j - st.lo + 1] = j + 1
+              F = {} \/ \E st \in F : \A j \in st.K : r.data[j - st.lo + 1] = Datum(c, j)
       [] cl = "ExtendNewFill" ->        \* (what adjust_dim_width puts into the samples it adds is not in the statement)
               F = {} \/ c.ops[2].op = "width" \/ \E st \in F : \A t \in 1..L : (st.lo + t - 1) \notin st.K => r.data[t] = c.fill
       [] cl = "ExactlyWidth" -> c.ops[2].op = "width" => L = c.ops[2].w
